@@ -339,9 +339,16 @@ def run_case(c, N, subseed):
     K = c["K"]
     eng = gs.Engine(seeds=jax.random.split(jax.random.PRNGKey((c["case_seed"] + 31 * subseed) % 2**31), N), model_states=states,
                     kernel_sequence=KernelSequence(kernels), epoch_configs=[EpochConfig(EpochType.INITIAL_VALUES, 1, 1, None), EpochConfig(EpochType(c["epoch"]), K, 1, None)],
-                    jitted_sample_duration=K, model=iface, position_keys=[keymap[k] for k in fam.blocks], show_progress=False)
+                    jitted_sample_duration=K, model=iface, position_keys=[keymap[k] for k in fam.blocks], store_kernel_states=True, show_progress=False)
     eng.sample_all_epochs()
     res = eng.get_results()
+    # the premise of the property: in burn-in and posterior epochs the tuning parameters are held fixed
+    for ki, ks in enumerate(res.kernel_states.unwrap().combine_all().unwrap()):
+        for f in ("step_size", "inverse_mass_matrix"):
+            if hasattr(ks, f):
+                a = np.asarray(getattr(ks, f))
+                require(bool(np.all(a == a[:, :1])), "tuning-not-held-fixed-in-burnin-or-posterior-epoch:" + c["kernels"][ki]["kind"],
+                        f"{f} of kernel #{ki} changes between transitions of a non-adaptation epoch (type {c['epoch']}); {c}")
     pos = res.get_samples()
     thK = {k: np.asarray(pos[keymap[k]], dtype=np.float64)[:, -1] for k in fam.blocks}
     th0r = {k: np.asarray(pos[keymap[k]], dtype=np.float64)[:, 0] for k in fam.blocks}
